@@ -241,20 +241,26 @@ func init() {
 	})
 	RegInd(&Ind{
 		Name: "momentum.StochasticRsi", In: []string{"X"}, Out: []string{"stochrsi"},
-		Cfgs: func(t bool) [][]float64 { return Box1(2, Hi(t, 4, 6)) },
+		// cfg = [RSI period, min/max window]; the constructor sets both to one period, the fields are public and the
+		// unchanged code aligns the branches by the window's own idle period, so mixed periods are explored as well
+		Cfgs: func(t bool) [][]float64 {
+			h := Hi(t, 4, 6)
+			return Box([]int{1, 2}, []int{h, h}, nil)
+		},
 		New: func(c []float64) *Inst {
-			o := momentum.NewStochasticRsiWithPeriod[float64](I(c, 0))
+			o := momentum.NewStochasticRsiWithPeriod[float64](I(c, 1))
+			o.Rsi = momentum.NewRsiWithPeriod[float64](I(c, 0))
 			return &Inst{Obj: o, Idle: o.IdlePeriod(), Compute: F11(o.Compute)}
 		},
-		// (RSI - Min(RSI)) / (Max(RSI) - Min(RSI)), min and max over the same period
+		// (RSI - Min(RSI)) / (Max(RSI) - Min(RSI)), min and max over the window
 		Ref: func(c []float64, in []ref.S) []ref.S {
 			r := momRsi(in[0], I(c, 0))
-			lo, hi := ref.Min(r, I(c, 0)), ref.Max(r, I(c, 0))
+			lo, hi := ref.Min(r, I(c, 1)), ref.Max(r, I(c, 1))
 			return []ref.S{ref.DivScaled(ref.Sub(r, lo), ref.Sub(hi, lo), 100)}
 		},
 		PriceDeg: []int{0}, VolDeg: []int{0},
 		Range:    momBetween(0, 1, "stochrsi"),
-		Note:     "period starts at 2: with period 1 max = min = RSI and the formula is 0/0 everywhere",
+		Note:     "window starts at 2: with a window of 1 max = min = RSI and the formula is 0/0 everywhere",
 	})
 	RegInd(&Ind{
 		Name: "momentum.WilliamsR", In: []string{"H", "L", "C"}, Out: []string{"wr"},
